@@ -562,13 +562,13 @@ fn gen_table(rng: &mut Rng, name: &str, existing: &[Tbl]) -> Tbl {
         let k = 1 + rng.below(plain.len().min(2));
         let mut cols = plain.clone();
         rng.shuffle(&mut cols);
-        t.indexes.push(Ix { name: None, unique: false, primary: true, cols: cols[..k].iter().map(|c| (c.clone(), if rng.chance(1, 3) { Some(rng.coin()) } else { None }, None)).collect(), index_type: None, include: vec![], nulls_not_distinct: false, if_not_exists: false, filter: None, filter_more: vec![] });
+        t.indexes.push(Ix { name: None, unique: false, primary: true, cols: cols[..k].iter().map(|c| (c.clone(), if rng.chance(1, 3) { Some(rng.coin()) } else { None }, if rng.chance(1, 6) { Some(1 + rng.below(20) as u32) } else { None })).collect(), index_type: None, include: vec![], nulls_not_distinct: false, if_not_exists: false, filter: None, filter_more: vec![] });
     }
     if rng.chance(1, 3) && !plain.is_empty() {
         let k = 1 + rng.below(plain.len().min(2));
         let mut cols = plain.clone();
         rng.shuffle(&mut cols);
-        t.indexes.push(Ix { name: Some(format!("uq_{name}")), unique: true, primary: false, cols: cols[..k].iter().map(|c| (c.clone(), if rng.chance(1, 3) { Some(rng.coin()) } else { None }, None)).collect(), index_type: None, include: vec![], nulls_not_distinct: false, if_not_exists: false, filter: None, filter_more: vec![] });
+        t.indexes.push(Ix { name: Some(format!("uq_{name}")), unique: true, primary: false, cols: cols[..k].iter().map(|c| (c.clone(), if rng.chance(1, 3) { Some(rng.coin()) } else { None }, if rng.chance(1, 6) { Some(1 + rng.below(20) as u32) } else { None })).collect(), index_type: None, include: vec![], nulls_not_distinct: false, if_not_exists: false, filter: None, filter_more: vec![] });
     }
     if let Some(parent) = existing.last() {
         if rng.chance(1, 2) && !plain.is_empty() {
@@ -767,7 +767,8 @@ pub fn run_history(ctx: &Ctx, rep: &mut Report, n: u64, rng: &mut Rng, single: O
                     let k = 1 + rng.below(plain.len().min(3));
                     let mut names: Vec<String> = plain.iter().map(|c| c.name.clone()).collect();
                     rng.shuffle(&mut names);
-                    let cols: Vec<(String, Option<bool>, Option<u32>)> = names[..k].iter().map(|c| (c.clone(), if rng.coin() { Some(rng.coin()) } else { None }, None)).collect();
+                    // a prefix length is MySQL's notion: SQLite's renderer leaves it out, the index covers the whole column
+                    let cols: Vec<(String, Option<bool>, Option<u32>)> = names[..k].iter().map(|c| (c.clone(), if rng.coin() { Some(rng.coin()) } else { None }, if rng.chance(1, 5) { Some(1 + rng.below(20) as u32) } else { None })).collect();
                     let filter = if rng.chance(1, 3) { plain.iter().find(|c| c.ty.is_int()).map(|c| (c.name.clone(), rng.range(0, 9))) } else { None };
                     let filter_more: Vec<i64> = if filter.is_some() { (0..rng.pick_weighted(&[3, 2, 1])).map(|_| rng.range(10, 19)).collect() } else { vec![] };
                     // index names are identifiers like any other: now and then one with a quote character or a blank
